@@ -4,6 +4,7 @@ from harness.swharness import Harness
 
 FRAME_LEN = {"a": 60, "b": 200}
 MACS = {"a": "00:00:00:00:0a:01", "b": "00:00:00:00:0b:01"}
+ZMAC = "00:00:00:00:0e:0e"
 ET_MISS = 0x0801            # no flow matches this ethertype
 ET_CTRL = {64: 0x88b5, 65535: 0x88b6}   # flows output:CONTROLLER(max_len)
 
@@ -38,6 +39,8 @@ class Adapter(object):
       for et in [ET_MISS] + list(ET_CTRL.values()):
         if data == frame(f, et):
           return f
+        if data == rb.mac(ZMAC) + frame(f, et)[6:]:      # the same frame with its destination rewritten
+          return "Z" + f
     return "?" + data[:20].hex()
 
   def _emitted(self):
@@ -111,6 +114,30 @@ class Adapter(object):
       if msgs:
         r["msgs"] = [m["name"] for m in msgs]
       return r
+    if a == "MissViaTable":
+      f, p = args["f"], args["p"]
+      fr = frame(f, ET_MISS)
+      acts = rb.a_output(rb.OFPP_TABLE) + rb.a_dl_dst(ZMAC) + rb.a_output(2)
+      msgs = self.h.send(rb.packet_out(buffer_id=rb.NO_BUFFER, in_port=p, actions=acts, data=fr))
+      em = self._emitted()
+      pins = [m for m in msgs if m["type"] == rb.PACKET_IN]
+      if len(pins) != 1 or len(msgs) != 1:
+        return {"unexpected": [m["name"] for m in msgs], "emitted": em}
+      m = pins[0]
+      if m["data"] != fr[:len(m["data"])]:
+        return {"bad_data": m["data"][:16].hex()}
+      if m["buffer_id"] == rb.NO_BUFFER:
+        buf = 0
+      elif m["buffer_id"] in self.bind:
+        buf = "DUPLICATE-ID"
+      else:
+        free = [s for s in range(1, self.N + 1) if s not in self.bind.values()]
+        buf = free[0] if free else "ID-BEYOND-POOL"
+        if free:
+          self.bind[m["buffer_id"]] = buf
+          self.lastid[buf] = m["buffer_id"]
+      return {"buf": buf, "total": m["total_len"], "dataLen": len(m["data"]), "inport": m["in_port"],
+              "reason": {0: "miss", 1: "action"}.get(m["reason"], m["reason"]), "emitted": em}
     if a == "SetConfig":
       msgs = self.h.send(rb.set_config(flags=0, miss_send_len=args["missLen"]))
       em = self.h.take_emitted()
@@ -128,7 +155,7 @@ class Adapter(object):
     if isinstance(obs, dict) and "EXC" in obs:
       sig["observed"] = "exception:" + obs["EXC"]
       return sig
-    if st["a"] == "ToController":
+    if st["a"] in ("ToController", "MissViaTable"):
       diff = sorted(k for k in exp if not isinstance(obs, dict) or obs.get(k) != exp[k])
       sig["fields"] = diff
       sig["truncated"] = exp["dataLen"] < exp["total"]
